@@ -789,6 +789,14 @@ func TestVerif_C04_connseq(t *testing.T) {
 	defer log.SetOutput(log.Writer())
 	log.SetOutput(io.Discard) // "Unsolicited response received on idle HTTP channel" (both transports)
 	hangs := 0
+	// Round 5: the model's answers are computed up front (one driver run over all cases), so that a
+	// disagreement with the MODEL is handled like a disagreement with the reference: under load BOTH
+	// transports can lose the unsolicited-bytes race in the same way (seen with VERIF_SEED=3 next to
+	// ten other checks: matrix case `HTTP/1.0 304 … keep-alive` + leftover "x": fork = reference =
+	// "second request fails on the same connection", model = "connection closed, second request on a
+	// new one"); such a case must reproduce with the caller pausing between requests to count.
+	modelOf := map[string]string{}
+	modelReruns := 0
 	runCase := func(i int, c c04sCase) {
 		s.Begin(c.line(), c.human())
 		fork, ref := c04sRunBoth(c, 0)
@@ -796,11 +804,19 @@ func TestVerif_C04_connseq(t *testing.T) {
 		// request in BOTH transports (lost about once in 2500 sequences on an idle machine, more
 		// often under load; a lost race can also derail the rest of the sequence into a stall).
 		// A disagreement must reproduce, with the caller pausing between requests, to count.
+		want, haveModel := modelOf[c.line()]
 		for _, pause := range []time.Duration{2 * time.Millisecond, 20 * time.Millisecond} {
-			if fork == ref || hangs >= 4 {
+			if hangs >= 4 {
 				break
 			}
-			cnt("rerun-after-disagreement")
+			if fork != ref {
+				cnt("rerun-after-disagreement")
+			} else if haveModel && fork != want && modelReruns < 60 {
+				cnt("rerun-after-model-disagreement")
+				modelReruns++
+			} else {
+				break
+			}
 			fork, ref = c04sRunBoth(c, pause)
 		}
 		dumpNote := ""
@@ -846,7 +862,26 @@ func TestVerif_C04_connseq(t *testing.T) {
 	}
 	// the keep-alive matrix first (deterministic, independent of VERIF_SEED): every combination of
 	// the factors of the reuse decision in an otherwise clean two-request sequence
-	for i, c := range c04sMatrix() {
+	matrix := c04sMatrix()
+	gen := make([]c04sCase, 0, n)
+	for i := 0; i < n; i++ {
+		gen = append(gen, c04sGenCase(r, g)) // (running a case draws nothing from r)
+	}
+	{
+		lines := make([]string, 0, len(matrix)+len(gen))
+		for _, c := range matrix {
+			lines = append(lines, c.line())
+		}
+		for _, c := range gen {
+			lines = append(lines, c.line())
+		}
+		if ans, err := verifh.RunModel(lines); err == nil {
+			for k, l := range lines {
+				modelOf[l] = ans[k]
+			}
+		}
+	}
+	for i, c := range matrix {
 		if hangs >= 4 {
 			break
 		}
@@ -854,7 +889,7 @@ func TestVerif_C04_connseq(t *testing.T) {
 		runCase(3*i+1, c) // (no dump-on re-run for these)
 	}
 	for i := 0; i < n && hangs < 4; i++ {
-		runCase(i, c04sGenCase(r, g))
+		runCase(i, gen[i])
 	}
 	s.Finish()
 	for _, need := range []string{"gen:101-plain", "gen:101-upgrade", "gen:status<100", "gen:1.0", "gen:1.0-keep-alive", "gen:conn-close", "gen:chunked", "gen:trailer", "gen:HEAD",
@@ -933,7 +968,7 @@ func c04sMatrix() []c04sCase {
 	for _, status := range []string{"200", "204", "304", "101", "101-upgrade", "042", "099", "500"} {
 		for _, framing := range []string{"len", "chunked", "cl0"} {
 			for _, proto := range []string{"HTTP/1.1", "HTTP/1.0"} {
-				for _, conn := range []string{"", "close", "keep-alive", "x, Close", "keep-alive, close"} {
+				for _, conn := range []string{"", "close", "keep-alive", "x, Close", "keep-alive, close", "x-foo\r\nConnection: close", "x-foo\r\nconnection: keep-alive", "not close"} {
 					for _, method := range []string{"GET", "HEAD"} {
 						for _, part := range []int{-1, 0, 1} {
 							for _, leftover := range []string{"", "x"} {
